@@ -2,8 +2,19 @@
 
 pub mod common;
 pub mod c01;
+pub mod c02;
+pub mod c08;
+pub mod c09;
+pub mod c10;
+pub mod c11;
+pub mod c16;
+pub mod c17;
+pub mod c18;
 pub mod c03;
 pub mod c04;
+pub mod c05;
+pub mod c06;
+pub mod c07;
 pub mod c12;
 pub mod c13;
 
@@ -11,21 +22,56 @@ use crate::report::{Ctx, RunReport, Violation};
 use crate::spec::ScenarioSpec;
 use crate::Tier;
 
-pub const CLAIMED: &[&str] = &["C01", "C03", "C04", "C12", "C13"];
+pub const CLAIMED: &[&str] = &["C01", "C02", "C03", "C04", "C05", "C06", "C07", "C08", "C09", "C10", "C11", "C12", "C13", "C16", "C17", "C18"];
 
 /// Number of runs in the quick tier (thorough is wall-clock budgeted).
 pub fn quick_runs(prop: &str) -> u64 {
     match prop {
-        "C01" => 30_000,
+        "C01" => 60_000,
+        "C02" => 20_000,
+        "C03" => 60_000,
+        "C04" => 40_000,
+        "C05" => 60_000,
+        "C06" => 60_000,
+        "C07" => 160,
+        "C08" => 40_000,
+        "C09" => 40_000,
+        "C10" => 20_000,
+        "C11" => 10_000,
+        "C12" => 25_000,
+        "C13" => 40_000,
+        "C16" => 20_000,
+        "C17" => 40_000,
+        "C18" => 15_000,
         _ => 10_000,
+    }
+}
+
+/// Chunk size for the time-budgeted tier (small for expensive runs so the deadline is honoured).
+pub fn thorough_chunk(prop: &str) -> u64 {
+    match prop {
+        "C07" => 2,
+        "C02" | "C10" | "C11" | "C12" | "C18" => 32,
+        _ => 128,
     }
 }
 
 pub fn gen(prop: &str, seed: u64, tier: Tier) -> ScenarioSpec {
     match prop {
         "C01" => c01::gen(seed, tier),
+        "C07" => c07::gen(seed, tier),
+        "C06" => c06::gen(seed, tier),
+        "C18" => c18::gen(seed, tier),
+        "C17" => c17::gen(seed, tier),
+        "C16" => c16::gen(seed, tier),
+        "C11" => c11::gen(seed, tier),
+        "C10" => c10::gen(seed, tier),
+        "C09" => c09::gen(seed, tier),
+        "C08" => c08::gen(seed, tier),
+        "C02" => c02::gen(seed, tier),
         "C03" => c03::gen(seed, tier),
         "C04" => c04::gen(seed, tier),
+        "C05" => c05::gen(seed, tier),
         "C12" => c12::gen(seed, tier),
         "C13" => c13::gen(seed, tier),
         _ => panic!("unknown property {}", prop),
@@ -47,11 +93,88 @@ pub const COMMON_ASSUMPTIONS: &[&str] = &[
 
 pub fn meta(prop: &str) -> Meta {
     let mut assumptions: Vec<&'static str> = COMMON_ASSUMPTIONS.to_vec();
+    let s2_states = "distinct abstract parser states visited: version class x framing regime x last event kind x characters pending (pre seen, post not yet) in the open frame x splitter accumulating x end seen x frame open";
+    let none = "not tracked for this property (one-shot API only)";
     let (level, rule, states): (&str, &str, &str) = match prop {
         "C01" => (
             "exploration",
-            "each evaluation = one generated recording (version x ports x frame history x field patterns x gecko x end x metadata) read through a fragmenting/interrupting stream and written through a short-writing sink; distinct = distinct shape signature (version class, port/ICs pattern, absence class, rollback, item class, gecko class, end variant, metadata class, size class, read and write schedule mode); non-trivial = at least one frame AND at least one short read/write or Interrupted actually fired",
-            "not tracked for this property (one-shot API)",
+            "each evaluation = one generated recording (version x ports/ICs x frame history with rollbacks and absences x boundary-biased field patterns x gecko x end variant x metadata) read through a fragmenting/interrupting stream and written back through a short-writing sink; oracle: bytes written == bytes recorded. distinct = distinct shape signature (version class, port/ICs pattern, absence class, rollback, item class, gecko class, end variant, metadata class, size class, read and write schedule mode); non-trivial = at least one frame AND at least one short read/write or Interrupted actually fired",
+            none,
+        ),
+        "C02" => (
+            "exploration",
+            "each evaluation = one recording -> slippi::read (hash on/off) -> peppi::write (none/LZ4/ZSTD, short-writing sink) -> peppi::read (fragmenting stream) -> slippi::write, with the statement's corners (no frames, no metadata, no end, no gecko, 3.0-3.6) forced at 5 % each; oracle: final bytes == recorded bytes, hash and quirks unchanged. distinct = shape signature incl. compression and hash option; every completed evaluation is non-trivial (the archive leg always runs)",
+            none,
+        ),
+        "C03" => (
+            "exploration",
+            "each evaluation = one recording whose version is drawn round-robin over all 25 layout gates and their predecessors, every field filled with fresh random or boundary bits, parsed one-shot (70 %) or incrementally (30 %); oracle: every column cell == bits at the independent table's offset, Option column present iff version >= introducing version. distinct = shape signature incl. version class, API, special-pattern rate; non-trivial = at least one frame",
+            s2_states,
+        ),
+        "C04" => (
+            "exploration",
+            "each evaluation = one recorded history (ids with rollbacks/jumps, per-occurrence presence of every character incl. forced absences in first/middle/last occurrence, 0..15 items) parsed incrementally with the parser state compared to the model after EVERY event (50 %) or one-shot with the final state compared (50 %); oracle: ids, validity bits, values-in-row, item grouping, column lengths. distinct = shape signature; non-trivial = at least two occurrences (one-shot) or a deviating schedule (incremental)",
+            s2_states,
+        ),
+        "C05" => (
+            "exploration",
+            "each evaluation = one Game Start / Game End pair of a drawn length class, port occupancy/type pattern (human/CPU/demo/empty/garbage type byte, gaps), teams flag and random mapped bytes inside the reader's domain; oracle: every typed field and the JSON rendering == values at the independent offsets, optionals present iff the block is long enough. distinct = (version class, type byte pattern of the 4 ports, teams, start length, end length, schedule); all evaluations non-trivial",
+            none,
+        ),
+        "C06" => (
+            "exploration",
+            "each evaluation = a valid recording damaged by a swarm-drawn subset of fault kinds (event drop/dup/swap, wrong frame id/port/follower, event illegal for the version, payload-table edits, splitter edits, metadata edits incl. 200 000-level nesting, raw-length edits, early Game End, random bytes; disk cut/torn/lost/zeroed/flip/garbage; hard read error at a drawn call; seek error) read one-shot under skip x hash or through the README's incremental loop; oracle: returns Ok or Err (no panic, abort, stack overflow, no-progress), and a hard stream error never ends in Ok. distinct = shape signature incl. the multiset of fault kinds that fired and the option/API combination; non-trivial = at least one fault fired",
+            none,
+        ),
+        "C07" => (
+            "fault_enumeration",
+            "each evaluation = one finished recording for which EVERY proper prefix (files <= 3000 bytes in quick, <= 40 000 in thorough; otherwise all event boundaries +-2, 300/3000 random offsets, head and tail) is read with and without skip-frames, then its .slpp (drawn compression) cut at every 512-block boundary +-2, every entry end, every Arrow IPC message boundary, the last 600 bytes and 300/4000 random offsets (all offsets in thorough up to 80 000 bytes); oracle: .slp prefix -> Err; .slpp prefix -> Err or exactly the uncut game; never a panic or a stalled read. crash points are counted in faults_fired; distinct = shape signature of the file; every evaluation is non-trivial",
+            none,
+        ),
+        "C08" => (
+            "exploration",
+            "each evaluation = a recording plus (a) 1-6 unknown event codes of sizes 1..600 inserted at drawn event boundaries after Game Start (between splitter blocks and inside frames included) or (b) a version above 3.16 with 1..200 extra trailing bytes on known events; oracle: differential against the twin recording without the extras (start, end, metadata, gecko, every column) and against the model; incremental runs step over the extras with the per-event oracle. distinct = shape signature incl. extras class and API; non-trivial = extras actually present",
+            s2_states,
+        ),
+        "C09" => (
+            "exploration",
+            "each evaluation = a tiny recording whose version triple is drawn around the ceiling (3.16.0, 3.16.1, 3.16.255, 3.17.0, 3.255.255, 4.0.0, 255.255.255, 2.255.255, 0.1.0, random) written by both writers; oracle: refusal (Err, never a panic) iff version > 3.16.0. distinct = distinct version triple x shape; all non-trivial",
+            none,
+        ),
+        "C10" => (
+            "exploration",
+            "each evaluation = one finished recording read full and with skip-frames (hash off = seek path, hash on = copy path) under fragmentation and Interrupted, the skipped game written and re-read, then the same through .slpp (skip read, skipped game written as .slpp and read back); oracle: start/end/metadata identical, zero frames with the right port layout. distinct = shape signature incl. hash option and compression; non-trivial = at least one frame",
+            none,
+        ),
+        "C11" => (
+            "exploration",
+            "each evaluation = one recording read under 6 (quick) / 12 (thorough) schedules: whole, one byte at a time, a two-piece split at a drawn offset, then drawn fixed/random/event-edge fragmentations with Interrupted bursts, each x skip-frames x hash requested; oracle: hash == xxh3: + 16 hex of the one-shot XXH3-64 of the file bytes, reader position == file length, None when not requested, unchanged through .slpp. distinct = shape signature incl. the sequence of (schedule class, skip, hash) combinations; non-trivial = some read actually returned short or Interrupted",
+            none,
+        ),
+        "C12" => (
+            "exploration",
+            "each evaluation = one recording parsed through parse_header / parse_start / parse_event* / parse_metadata over the live pipe (recorder and parser interleaved, 70 %, 15 % of them with a connection drop) or a fragmenting stream (30 %); oracle after EVERY call: returned code, bytes_read == raw bytes consumed == stream position - 15, row count == occurrences opened and never decreasing, every completed row == model row (all rows re-checked at random steps and at the end), and finally == the one-shot read of the same bytes. distinct = shape signature incl. live chunking and drop; non-trivial = at least one frame and a short read / Interrupted / recorder interleaving actually happened",
+            s2_states,
+        ),
+        "C13" => (
+            "exploration",
+            "each evaluation = one recording; finished view: Game::frame(i) for every row vs the columns at i; in-progress view: ParseState::frame(r) for every row as soon as it is completed, while the stream is still being fed; oracle: every field bitwise equal, version-absent fields None exactly below the introducing version, items == the offset-delimited slice. distinct = shape signature incl. API; non-trivial = at least one frame",
+            s2_states,
+        ),
+        "C16" => (
+            "exploration",
+            "each evaluation = one recording with a generated metadata tree (strings 0-255 bytes incl. multi-byte UTF-8, int32 incl. MIN/-1/MAX, nested and empty maps, up to 40 keys, chains up to 64 deep, arbitrary key order) or none; oracle: parsed tree == model tree in order, written tail bytes == recorded tail bytes, metadata.json (harness-parsed) == tree in order, tree after .slpp == tree, none stays none. distinct = shape signature incl. depth class and content flags; non-trivial = non-empty tree or none",
+            none,
+        ),
+        "C17" => (
+            "exploration",
+            "each evaluation = one recording from the irregular recorder (unknown events anywhere, 1-40 junk bytes after Game End inside the raw element, random linear extension of pre-before-post inside every frame, end absent, metadata absent); oracle: declared raw length of the written file == length found by walking its own payload table, re-read equals the first read, second write == first write. distinct = shape signature incl. irregularity flags; non-trivial = some irregularity present",
+            none,
+        ),
+        "C18" => (
+            "exploration",
+            "each evaluation = one recording written as .slpp twice (fragmenting sink / plain sink), the archive walked block by block by the harness, then mutated (0-5 unknown entries incl. long GNU names at drawn positions before frames.arrow; format version triple rewritten); oracle: signature at offset 0, entry order, every *.json byte-equal to the rendering of what peppi::read reconstructs, identical bytes for both writes (and across worker processes via the determinism audit), unknown entries ignored, version < 2.0.0 rejected. distinct = shape signature incl. compression, edit count, version class; all non-trivial",
+            none,
         ),
         _ => ("exploration", "see DESIGN.md", "n/a"),
     };
@@ -62,8 +185,19 @@ pub fn meta(prop: &str) -> Meta {
 fn dispatch(spec: &ScenarioSpec, ctx: &mut Ctx) -> Result<(), Violation> {
     match spec.property.as_str() {
         "C01" => c01::run(spec, ctx),
+        "C07" => c07::run(spec, ctx),
+        "C06" => c06::run(spec, ctx),
+        "C18" => c18::run(spec, ctx),
+        "C17" => c17::run(spec, ctx),
+        "C16" => c16::run(spec, ctx),
+        "C11" => c11::run(spec, ctx),
+        "C10" => c10::run(spec, ctx),
+        "C09" => c09::run(spec, ctx),
+        "C08" => c08::run(spec, ctx),
+        "C02" => c02::run(spec, ctx),
         "C03" => c03::run(spec, ctx),
         "C04" => c04::run(spec, ctx),
+        "C05" => c05::run(spec, ctx),
         "C12" => c12::run(spec, ctx),
         "C13" => c13::run(spec, ctx),
         p => panic!("unknown property {}", p),
